@@ -3,6 +3,7 @@ package tun
 import (
 	"errors"
 	"io"
+	"net"
 	"sync/atomic"
 
 	rt "go.miragespace.co/specter/zzverifrt"
@@ -12,8 +13,12 @@ import (
 //   Read   hands out `data` in arbitrary chunks (at most len(p)), then ends the way `end` says:
 //          zzEOF: io.EOF; zzFail: a stream error; zzStay: waits until the stream is closed.
 //   Write  appends to `out`; if failAt == number of earlier Write calls it fails instead (nothing accepted).
-//   Close  marks the stream closed and releases a waiting Read. After Close, Read and Write fail
-//          (bytes not yet handed out / written are lost, as on a real connection).
+//   Close  marks the stream closed and releases a waiting Read. After Close, Read and Write fail with the
+//          stream's closed error — net.ErrClosed for stream a, io.ErrClosedPipe for stream b, the two errors real
+//          connections (TCP/QUIC, io.Pipe/bufconn) give for use after a local Close (bytes not yet handed out /
+//          written are lost, as on a real connection).
+//   zzExtClose is the same Close performed by a third party (the stream's owner: idle timeout, shutdown, a
+//          caller's deferred Close) at an arbitrary scheduling point; it is not counted in `closes`.
 // Every method is one atomic step: it starts with one scheduling point keyed on the stream (an atomic add on
 // `gate`) and contains no other one, so calls from the two copy goroutines interleave at method granularity, and
 // calls on different streams are independent for the scheduler's partial-order reduction.
@@ -29,6 +34,8 @@ type zzEnd struct {
 	closed   bool
 	closes   int
 	closedCh chan struct{}
+	closedErr error
+	extFirst bool // a third party closed the stream before Pipe did
 	sawEOF   bool // Read handed io.EOF to the copier
 	sawFail  bool // Read handed zzErrRead to the copier
 	sawWFail bool // Write handed zzErrWrite to the copier
@@ -43,13 +50,12 @@ const (
 var (
 	zzErrRead   = errors.New("zz stream read error")
 	zzErrWrite  = errors.New("zz stream write error")
-	zzErrClosed = errors.New("zz use of closed stream")
 )
 
 func (e *zzEnd) Read(p []byte) (int, error) {
 	atomic.AddInt32(&e.gate, 1)
 	if e.closed {
-		return 0, zzErrClosed
+		return 0, e.closedErr
 	}
 	if e.pos < len(e.data) && len(p) > 0 {
 		max := len(e.data) - e.pos
@@ -70,13 +76,13 @@ func (e *zzEnd) Read(p []byte) (int, error) {
 		return 0, zzErrRead
 	}
 	<-e.closedCh
-	return 0, zzErrClosed
+	return 0, e.closedErr
 }
 
 func (e *zzEnd) Write(p []byte) (int, error) {
 	atomic.AddInt32(&e.gate, 1)
 	if e.closed {
-		return 0, zzErrClosed
+		return 0, e.closedErr
 	}
 	if e.writes == e.failAt {
 		e.writes++
@@ -98,13 +104,26 @@ func (e *zzEnd) Close() error {
 	return nil
 }
 
+// zzExtClose: Close by somebody other than Pipe.
+func (e *zzEnd) zzExtClose() {
+	atomic.AddInt32(&e.gate, 1)
+	if !e.closed {
+		e.closed = true
+		e.extFirst = true
+		close(e.closedCh)
+	}
+}
+
 func zzNewEnd(name string, maxData int, errors bool) *zzEnd {
-	e := &zzEnd{name: name, closedCh: make(chan struct{}), failAt: -1}
+	e := &zzEnd{name: name, closedCh: make(chan struct{}), failAt: -1, closedErr: net.ErrClosed}
+	if name == "b" {
+		e.closedErr = io.ErrClosedPipe
+	}
 	e.data = rt.BytesN(name+".data", rt.Choose(name+".len", maxData+1))
 	if errors {
 		e.end = rt.Choose(name+".end", 3)
 		if rt.Fork(name + ".write-fails") {
-			e.failAt = rt.Choose(name+".failAt", 2)
+			e.failAt = rt.Choose(name+".failAt", rt.Bound("WF"))
 		}
 	} else {
 		e.end = rt.Choose(name+".end", 2) * zzStay // zzEOF or zzStay
@@ -136,7 +155,8 @@ func zzCheck(a, b *zzEnd, withErrors bool) {
 	_, open := <-ch
 	rt.Assert(!open && len(reported) <= 2, "completion-channel-is-closed")
 	// the channel closes only after both copy goroutines have returned, so the harness fields are stable here
-	rt.Assert(a.closes >= 1 && b.closes >= 1, "both-streams-closed")
+	rt.Assert(a.closed && b.closed, "both-streams-closed")
+	rt.Assert((a.closes >= 1 || a.extFirst) && (b.closes >= 1 || b.extFirst), "pipe-closed-every-stream-nobody-else-had-closed")
 	rt.Assert(zzPrefix(b.out, a.data), "a-to-b-delivers-a-prefix-in-order")
 	rt.Assert(zzPrefix(a.out, b.data), "b-to-a-delivers-a-prefix-in-order")
 	// a side that finished (its Read handed out EOF or its own error) had everything it produced delivered
@@ -198,6 +218,26 @@ func ZZ_C40_Errors() {
 		return
 	}
 	zzCheck(a, b, true)
+}
+
+// ZZ_C40_ExternalClose: one of the two piped streams is closed by a third party at an arbitrary point (before,
+// during or after the traffic), the other direction may be idle (both streams otherwise stay open) or end on its own.
+// Pipe must still close the other stream, release the sibling direction and complete.
+func ZZ_C40_ExternalClose() {
+	a := zzNewEnd("a", rt.Bound("NA"), false)
+	b := zzNewEnd("b", rt.Bound("NB"), false)
+	victim := a
+	if rt.Fork("third-party-closes-b") {
+		victim = b
+	}
+	go victim.zzExtClose()
+	zzCheck(a, b, false)
+	if a.extFirst || b.extFirst {
+		rt.Reach("closed-by-third-party-first")
+		if a.end == zzStay && b.end == zzStay {
+			rt.Reach("third-party-close-with-both-directions-idle")
+		}
+	}
 }
 
 // zzSkipInit replaces package tun's init() in alpn.go, which builds the ALPN name table from protobuf descriptors
